@@ -228,12 +228,12 @@ func (g *Gen) primD(pk string, allowZero bool) D {
 		t := g.aTime()
 		if allowZero && r.P(1, 5) {
 			t = time.Time{}
-		} else if allowZero && r.P(1, 6) {
+		} else if r.P(1, 6) {
 			// the year-1 instant WITH a location: present (not the Go zero value), although t.IsZero() is true
 			t = rng.Pick(r, []time.Time{time.Time{}.In(time.FixedZone("X", 3600)), time.Unix(-62135596800, 0).In(time.FixedZone("Y", -18000))})
 		}
 		if !allowZero && t.Unix() == 0 {
-			t = time.Unix(86400, 0).UTC()
+			t = time.Unix(86400, 0).UTC() // (the year-1 instant with a location stays: it is a populated value)
 		}
 		return D{K: "t", T: t}
 	}
